@@ -19,8 +19,12 @@ class Canon:
         self.bi_index = {}
         self.sec_base = {}
         for sec in self.m.sections:
+            # (ties between empty intervals at one address are broken by
+            # UUID-free content so that the dump does not depend on set order)
             ivs = sorted(sec.byte_intervals,
-                         key=lambda bi: (bi.address if bi.address is not None else 1 << 62, bi.size))
+                         key=lambda bi: (bi.address if bi.address is not None else 1 << 62, bi.size,
+                                         sorted((type(b).__name__, b.offset, b.size, sorted(s_.name for s_ in b.references))
+                                                for b in bi.blocks)))
             base = min((bi.address for bi in ivs if bi.address is not None), default=0)
             pos = 0
             for k, bi in enumerate(ivs):
@@ -322,7 +326,9 @@ def validate_ir(ir, input_zero_sized=(), after_fault=False, original_blocks=None
             if any(True for _ in b.references) and len(blocks) == 1:
                 reasons.append("labels, only block of the section")
             if isinstance(b, g.CodeBlock):
-                inc = [e for e in b.incoming_edges if not (e.label and e.label.type == g.Edge.Type.Fallthrough)]
+                # (Deletion.md: "the block has incoming control flow" - a
+                # fallthrough from a call or conditional jump counts)
+                inc = list(b.incoming_edges)
                 if (inc or b in self_loop_blocks) and not isinstance(nxt, g.CodeBlock):
                     # (an edge from the deleted block to itself counted as
                     # incoming control flow when the decision was made)
